@@ -19,6 +19,12 @@
    The store is the list [odb.all()] of object ids (names are what gc decides on);
    the directory objects readable from cache_odb are an association list.
 
+   Not modelled: odb._remove_unpacked_dir(hash_), called for every unused .dir object (dry or
+   not).  It removes the legacy side directory <object path>.unpacked on local-class stores;
+   such directories are not objects of the store (odb.all() does not list them), so the state
+   [list oid] does not contain them.  The harness plants them and checks that the OBJECTS
+   behave exactly as the model says.
+
    cache_odb (the store the directory objects are read from: Tree.load(cache_odb, ...)) may be
    omitted (= odb), a second store of the same algorithm, or a second store of ANOTHER algorithm
    (a legacy md5-dos2unix cache beside an md5 store, or the reverse).  It enters the model as
